@@ -14,6 +14,7 @@ import (
 	"fmt"
 	"io"
 	"math"
+	"net"
 	"os"
 	"runtime"
 	"sync"
@@ -303,6 +304,7 @@ func TestVerifC04Replay(t *testing.T) {
 	}
 	wg.Wait()
 	c04ConcurrentStage(res, limit, maxPayload, bufSize, kit.EnvInt("VERIF_C04_ROUNDS", 0), -1)
+	c04MixedPlacementStage(res, limit, maxPayload)
 	res.Stat("abstract_cases", int64(len(cases)))
 	res.Stat("jobs", int64(len(jobs)))
 }
@@ -473,6 +475,269 @@ func c04ConcurrentStage(res *kit.Result, limit, maxPayload, bufSize, rounds int,
 
 var c04ConcBufs, c04ConcPays [8][]byte
 
+// ------------------------------------------------ both placements used concurrently on ONE stream (Write + ReadFrom)
+
+// c04GateConn is the underlying connection of the sending session: it records every message and can park the
+// first Write call until released, which fixes the interleaving "Write holds the stream's write lock while
+// ReadFrom receives its data".
+type c04GateConn struct {
+	parkFirst bool
+	entered   chan struct{}
+	gate      chan struct{}
+	closed    chan struct{}
+	once      sync.Once
+	mu        sync.Mutex
+	calls     int
+	msgs      [][]byte
+}
+
+func c04NewGateConn(parkFirst bool) *c04GateConn {
+	return &c04GateConn{parkFirst: parkFirst, entered: make(chan struct{}, 1), gate: make(chan struct{}), closed: make(chan struct{})}
+}
+
+func (c *c04GateConn) Write(b []byte) (int, error) {
+	c.mu.Lock()
+	c.calls++
+	park := c.parkFirst && c.calls == 1
+	c.mu.Unlock()
+	if park {
+		c.entered <- struct{}{}
+		select {
+		case <-c.gate:
+		case <-c.closed:
+			return 0, io.ErrClosedPipe
+		case <-time.After(30 * time.Second):
+		}
+	}
+	c.mu.Lock()
+	c.msgs = append(c.msgs, append([]byte(nil), b...))
+	c.mu.Unlock()
+	return len(b), nil
+}
+func (c *c04GateConn) Read(b []byte) (int, error)         { <-c.closed; return 0, io.EOF }
+func (c *c04GateConn) Close() error                       { c.once.Do(func() { close(c.closed) }); return nil }
+func (c *c04GateConn) LocalAddr() net.Addr                { return &net.TCPAddr{} }
+func (c *c04GateConn) RemoteAddr() net.Addr               { return &net.TCPAddr{} }
+func (c *c04GateConn) SetDeadline(t time.Time) error      { return nil }
+func (c *c04GateConn) SetReadDeadline(t time.Time) error  { return nil }
+func (c *c04GateConn) SetWriteDeadline(t time.Time) error { return nil }
+
+// c04ChunkReader hands out one chunk per Read (what ReadFrom encodes in place), io.EOF when the channel is closed.
+type c04ChunkReader struct {
+	ch        chan []byte
+	delivered chan struct{}
+}
+
+func (r *c04ChunkReader) Read(p []byte) (int, error) {
+	b, ok := <-r.ch
+	if !ok {
+		return 0, io.EOF
+	}
+	n := copy(p, b)
+	select {
+	case r.delivered <- struct{}{}:
+	default:
+	}
+	return n, nil
+}
+
+// c04VerifyMixed decodes every wire message with the reference codec and matches the frames, in sequence order,
+// against what the calls handed over: Write's bytes (all have the top bit set) cut at the per-frame maximum, and
+// ReadFrom's chunks (top bit clear), one frame each.
+func c04VerifyMixed(method byte, key []byte, msgs [][]byte, w []byte, chunks [][]byte, max int) (vkey, what string) {
+	type fr struct {
+		seq uint64
+		p   []byte
+	}
+	var frs []fr
+	for i, m := range msgs {
+		rf, err := kit.RefDecodeFull(method, key, m)
+		if err != nil {
+			return "interop:concurrent-write-readfrom", fmt.Sprintf("wire message %d of %d bytes is not decodable by the independent codec: %v", i, len(m), err)
+		}
+		if rf.Closing != 0 {
+			continue
+		}
+		frs = append(frs, fr{rf.Seq, rf.Payload})
+	}
+	for i := range frs { // insertion sort by sequence number
+		for j := i; j > 0 && frs[j].seq < frs[j-1].seq; j-- {
+			frs[j], frs[j-1] = frs[j-1], frs[j]
+		}
+	}
+	wOff, rIdx := 0, 0
+	for _, f := range frs {
+		p := f.p
+		if wOff < len(w) && len(p) <= len(w)-wOff && bytes.Equal(p, w[wOff:wOff+len(p)]) && (len(p) == max || wOff+len(p) == len(w)) {
+			wOff += len(p)
+			continue
+		}
+		if rIdx < len(chunks) && bytes.Equal(p, chunks[rIdx]) {
+			rIdx++
+			continue
+		}
+		hi := 0
+		for _, b := range p {
+			if b&0x80 != 0 {
+				hi++
+			}
+		}
+		nextR := -1
+		if rIdx < len(chunks) {
+			nextR = len(chunks[rIdx])
+		}
+		pre := 0
+		if rIdx < len(chunks) {
+			for pre < len(p) && pre < len(chunks[rIdx]) && p[pre] == chunks[rIdx][pre] {
+				pre++
+			}
+		}
+		return "placement:concurrent-write-readfrom", fmt.Sprintf("frame seq %d decodes to %d bytes (%d look like Write's data, %d like ReadFrom's/stale; first %d bytes match ReadFrom's next chunk) "+
+			"but the calls handed over: next part of Write's buffer (%d of %d bytes sent so far) or ReadFrom's next chunk of %d bytes", f.seq, len(p), hi, len(p)-hi, pre, wOff, len(w), nextR)
+	}
+	if wOff != len(w) || rIdx != len(chunks) {
+		return "placement:concurrent-write-readfrom", fmt.Sprintf("not everything handed over is on the wire: %d of %d bytes of Write's data, %d of %d ReadFrom chunks (%d frames)", wOff, len(w), rIdx, len(chunks), len(frs))
+	}
+	return "", ""
+}
+
+// c04MixedPlacementStage: on ONE stream a multi-frame Write (encoded from the caller's buffer) and a ReadFrom
+// (encoded in place) run concurrently - once with the interleaving forced by the gated connection, then
+// free-running. Every wire message must decode, with the independent codec, to what the calls handed over.
+func c04MixedPlacementStage(res *kit.Result, limit, maxPayload int) {
+	rng := kit.NewRng(kit.Seed()*977 + 3)
+	rounds := 40
+	if kit.Thorough() {
+		rounds = 400
+	}
+	tagged := func(n int, hi bool) []byte {
+		b := rng.Bytes(n)
+		for i := range b {
+			if hi {
+				b[i] |= 0x80
+			} else {
+				b[i] &= 0x7f
+			}
+		}
+		return b
+	}
+	for method := byte(0); method < 4; method++ {
+		mname := map[byte]string{0: "plain", 1: "aes-256-gcm", 2: "chacha20-poly1305", 3: "aes-128-gcm"}[method]
+		bad := 0
+		for round := 0; round <= rounds && bad < 3; round++ {
+			gated := round == 0
+			var key [32]byte
+			copy(key[:], rng.Bytes(32))
+			o, err := MakeObfuscator(method, key)
+			if err != nil {
+				return
+			}
+			sesh := MakeSession(0, SessionConfig{Obfuscator: o, MsgOnWireSizeLimit: limit, InactivityTimeout: 24 * time.Hour})
+			conn := c04NewGateConn(gated)
+			sesh.AddConnection(conn)
+			st, err := sesh.OpenStream()
+			if err != nil {
+				res.Note("mixed stage: %v", err)
+				return
+			}
+			var w []byte
+			var chunks [][]byte
+			if gated {
+				w = tagged(maxPayload+800, true)
+				chunks = [][]byte{tagged(500, false)}
+			} else {
+				w = tagged((1+rng.Intn(5))*maxPayload+1+rng.Intn(3000), true)
+				for i := 2 + rng.Intn(6); i > 0; i-- {
+					n := 1 + rng.Intn(2000)
+					if rng.Intn(5) == 0 {
+						n = maxPayload - rng.Intn(3)
+					}
+					chunks = append(chunks, tagged(n, false))
+				}
+			}
+			rd := &c04ChunkReader{ch: make(chan []byte, len(chunks)), delivered: make(chan struct{}, len(chunks))}
+			wDone, rDone := make(chan error, 1), make(chan error, 1)
+			timeout := func(what string) {
+				res.Note("mixed stage (%s, round %d): timed out waiting for %s - stage abandoned, no verdict", mname, round, what)
+				res.Stat("mixed-placement:timeouts", 1)
+				conn.Close()
+			}
+			go func() { _, err := st.Write(w); wDone <- err }()
+			if gated {
+				select {
+				case <-conn.entered: // Write's first frame is parked in the connection; Write holds the write lock
+				case <-time.After(20 * time.Second):
+					timeout("the first frame of Write")
+					return
+				}
+			}
+			go func() {
+				_, err := st.ReadFrom(rd)
+				if err == io.EOF {
+					err = nil
+				}
+				rDone <- err
+			}()
+			for _, c := range chunks {
+				rd.ch <- c
+			}
+			if gated {
+				select {
+				case <-rd.delivered: // ReadFrom has its data and now needs the write lock
+				case <-time.After(20 * time.Second):
+					timeout("ReadFrom to take its data")
+					return
+				}
+				time.Sleep(30 * time.Millisecond)
+				close(conn.gate)
+			}
+			var wErr, rErr error
+			select {
+			case wErr = <-wDone:
+			case <-time.After(30 * time.Second):
+				timeout("Write to return")
+				return
+			}
+			// all chunks must have been taken before the reader reports EOF
+			for deadline := time.Now().Add(30 * time.Second); len(rd.ch) > 0 && time.Now().Before(deadline); {
+				time.Sleep(200 * time.Microsecond)
+			}
+			close(rd.ch)
+			select {
+			case rErr = <-rDone:
+			case <-time.After(30 * time.Second):
+				timeout("ReadFrom to return")
+				return
+			}
+			conn.mu.Lock()
+			msgs := conn.msgs
+			conn.mu.Unlock()
+			conn.Close()
+			res.Count(fmt.Sprintf("mixed|%s|%v|%d|%d", mname, gated, len(w)/maxPayload, len(chunks)), true)
+			res.Stat("mixed-placement:rounds", 1)
+			res.Stat("mixed-placement:wire-messages", int64(len(msgs)))
+			if wErr != nil || rErr != nil {
+				res.Note("mixed stage (%s, round %d): Write err=%v ReadFrom err=%v", mname, round, wErr, rErr)
+				res.Stat("mixed-placement:call-errors", 1)
+				continue
+			}
+			if k, what := c04VerifyMixed(method, key[:], msgs, w, chunks, maxPayload); k != "" {
+				bad++
+				mode := "free-running"
+				if gated {
+					mode = "Write's first frame parked in the connection while ReadFrom took its data"
+				}
+				lens := []int{}
+				for _, c := range chunks {
+					lens = append(lens, len(c))
+				}
+				res.Violate(k, fmt.Sprintf("%s, one stream, Write(%d bytes) and ReadFrom(chunks %v) concurrently (%s): %s", mname, len(w), lens, mode, what),
+					c04ConcReplay{Concurrent: true, Method: int(method), Round: round, Place: "mixed", Len: len(w), Key: hex.EncodeToString(key[:])})
+			}
+		}
+	}
+}
+
 // TestVerifC04Concurrent runs only the concurrent first-use stage (used for the -race run).
 func TestVerifC04Concurrent(t *testing.T) {
 	log.SetOutput(io.Discard)
@@ -480,6 +745,7 @@ func TestVerifC04Concurrent(t *testing.T) {
 	defer func() { res.Save(true) }()
 	limit, maxPayload, bufSize := c04Limits()
 	c04ConcurrentStage(res, limit, maxPayload, bufSize, kit.EnvInt("VERIF_C04_ROUNDS", 0), -1)
+	c04MixedPlacementStage(res, limit, maxPayload)
 }
 
 func c04ReplayFile(t *testing.T, path string) {
@@ -491,7 +757,11 @@ func c04ReplayFile(t *testing.T, path string) {
 		limit, maxPayload, bufSize := c04Limits()
 		res := kit.NewResult()
 		fmt.Printf("recorded: method %d, %d goroutines, payload %d, %s-place, message of %d bytes: %s...\n", cr.Replay.Method, cr.Replay.K, cr.Replay.Len, cr.Replay.Place, cr.Replay.N, cr.Replay.Msg)
-		c04ConcurrentStage(res, limit, maxPayload, bufSize, 200000, cr.Replay.Method)
+		if cr.Replay.Place == "mixed" {
+			c04MixedPlacementStage(res, limit, maxPayload)
+		} else {
+			c04ConcurrentStage(res, limit, maxPayload, bufSize, 200000, cr.Replay.Method)
+		}
 		res.Save(false)
 		for _, v := range res.Violations {
 			fmt.Printf("key=%q what=%q\n", v.Key, v.What)
